@@ -10,3 +10,11 @@ package raw
 //@ ensures [tag-after-first-space] imp(err == nil, tag == result_of(strings.Cut, 1))
 //@ at call strconv.Atoi assert [size-field] arg(a0) == result_of(strings.Cut, 0)
 //@ at call strings.Cut assert [first-space] arg(a0) == headerString0 && arg(a1) == " "
+
+// A raw entry is parsed by net/http; the request line target is cleared so that the gun can address it to its target.
+//@ func DecodeRequest
+//@ props C07 C09 C13
+//@ ensures [parse-error-is-returned] imp(result_of(http.ReadRequest, 1) != nil, err == result_of(http.ReadRequest, 1))
+//@ modifies nothing
+//@ ensures [the-parsed-request] imp(err == nil, req == result_of(http.ReadRequest, 0) && req != nil && req.RequestURI == "" && fresh(req) && req.Header != nil && fresh(req.Header))
+//@ at call bytes.NewReader assert [all-request-bytes] arg(a0) == reqString0
